@@ -23,7 +23,7 @@ RULE = ('Seeded histories of 2..8 operations on a directory with <= 3 paths: put
 ASSUMPTIONS = ['fault-free by statement: no crash / truncation is injected here', 'SED values are compared within 1e-12 relative (SED.read multiplies and divides by nu even when the unit is unchanged); cube and convolved files exactly',
                'for an SED written without apertures only the single row of values is required (apertures need not come back as None)']
 PROBES = ['overwrite_other_shape', 'sed_asc_written', 'sed_desc_written', 'cube_no_unc', 'cube_no_apertures', 'cube_memmap_read', 'cube_get_sed',
-          'read_order_wav', 'read_order_nu', 'unit_erg', 'unit_jy', 'conv_no_apertures', 'stale_memmap_reader', 'sed_no_apertures', 'gz_path', 'gz_sibling_present', 'read_in_other_unit']
+          'read_order_wav', 'read_order_nu', 'unit_erg', 'unit_jy', 'conv_no_apertures', 'stale_memmap_reader', 'sed_no_apertures', 'gz_path', 'gz_sibling_present', 'read_in_other_unit', 'uncertainties_in_other_unit']
 
 
 def budgets(tier):
@@ -37,6 +37,8 @@ def _gen_obj(rng, kind):
     o = {'kind': kind, 'n_models': rng.randint(1, 6) if kind != 'sed' else 1, 'n_ap': n_ap, 'n_wav': rng.randint(2, 40) if kind != 'conv' else 1,
          'asc': rng.random() < 0.5, 'has_ap': True if n_ap > 1 else rng.random() < 0.5, 'has_unc': True if kind != 'cube' else rng.random() < 0.6,
          'unit': rng.choice(UNITS) if kind != 'conv' else 'mJy', 'seed': rng.randrange(1 << 30), 'dist': float('%.4g' % (10 ** rng.uniform(-1, 1)))}
+    # uncertainties may be stored in another unit of the same family than the values (each extension carries its own unit)
+    o['unc_unit'] = rng.choice(['mJy', 'Jy']) if (o['unit'] in ('mJy', 'Jy') and kind != 'conv' and rng.random() < 0.5) else o['unit']
     return o
 
 
@@ -122,7 +124,7 @@ def _put(path, R, overwrite):
         if R.aps is not None:
             s.apertures = R.aps * u.au
         s.flux = R.val[0] * unit
-        s.error = R.unc[0] * unit
+        s.error = R.unc[0] * _unit(o.get('unc_unit', o['unit']))
         s.write(path, overwrite=overwrite)
     elif o['kind'] == 'cube':
         c = SEDCube()
@@ -133,7 +135,7 @@ def _put(path, R, overwrite):
             c.apertures = R.aps * u.au
         c.val = R.val * unit
         if R.unc is not None:
-            c.unc = R.unc * unit
+            c.unc = R.unc * _unit(o.get('unc_unit', o['unit']))
         c.write(path, overwrite=overwrite)
     else:
         cf = ConvolvedFluxes(wavelength=float(R.wav[0]) * u.micron, model_names=np.array(R.names), apertures=(R.aps * u.au if R.aps is not None else None),
@@ -166,8 +168,10 @@ def _check_cube(r, R, order, out, what):
         return 'unit %s, stored %s' % (r.val.unit, R.o['unit'])
     if (r.unc is None) != (R.unc is None):
         return 'uncertainties %s, stored %s' % ('absent' if r.unc is None else 'present', 'absent' if R.unc is None else 'present')
-    if R.unc is not None and not np.array_equal(np.asarray(r.unc.value, float), R.unc[:, :, idx]):
-        return 'uncertainties differ from the stored cells'
+    if R.unc is not None:
+        uu = _unit(R.o.get('unc_unit', R.o['unit']))
+        if not np.allclose(np.asarray(r.unc.to(uu).value, float), R.unc[:, :, idx], rtol=1e-14, atol=0):
+            return 'uncertainties differ from the stored cells (stored in %s, read back in %s)' % (uu, r.unc.unit)
     if (r.apertures is None) != (R.aps is None):
         return 'apertures %s, stored %s' % ('absent' if r.apertures is None else 'present', 'absent' if R.aps is None else 'present')
     if R.aps is not None and not np.array_equal(r.apertures.to(u.au).value, R.aps):
@@ -216,6 +220,8 @@ def _execute(sc, sim, out):
                 out.probe('conv_no_apertures')
             if 'erg' in o['unit']:
                 out.probe('unit_erg')
+            if o.get('unc_unit', o['unit']) != o['unit']:
+                out.probe('uncertainties_in_other_unit')
             if o['unit'] == 'Jy':
                 out.probe('unit_jy')
             trace.append(('put', o['kind'], o['asc'], o['has_ap'], o['has_unc'], o['unit'], over))
@@ -257,7 +263,7 @@ def _execute(sc, sim, out):
             elif s.flux.shape != R.val[0][:, idx].shape or not np.allclose(s.flux.value, R.val[0][:, idx], rtol=1e-12, atol=0):
                 k = int(np.argmax(np.abs(s.flux.value / R.val[0][:, idx] - 1).max(axis=0))) if s.flux.shape == R.val[0][:, idx].shape else -1
                 msg = 'flux at %.6g um reads %s, stored %s' % (w[k], s.flux.value[:, k], R.val[0][:, idx][:, k]) if k >= 0 else 'flux shape %s' % (s.flux.shape,)
-            elif not np.allclose(s.error.value, R.unc[0][:, idx], rtol=1e-12, atol=0):
+            elif not np.allclose(s.error.to(_unit(o.get('unc_unit', o['unit']))).value, R.unc[0][:, idx], rtol=1e-12, atol=0):
                 msg = 'errors differ from the stored cells'
             elif s.name != R.names[0] or abs(s.distance.to(u.kpc).value / o['dist'] - 1) > 1e-12:
                 msg = 'name/distance %s %s' % (s.name, s.distance)
@@ -301,7 +307,7 @@ def _execute(sc, sim, out):
                 out.compared('cube-sed-cells', int(R.val[k].size))
                 if not ok or not np.array_equal(np.asarray(sd.flux.value, float), R.val[k][:, idx]):
                     msg = 'get_sed(%s) does not return the SED that was put in' % R.names[k]
-                elif (sd.error is None) != (R.unc is None) or (R.unc is not None and not np.array_equal(np.asarray(sd.error.value, float), R.unc[k][:, idx])):
+                elif (sd.error is None) != (R.unc is None) or (R.unc is not None and not np.allclose(np.asarray(sd.error.to(_unit(o.get('unc_unit', o['unit']))).value, float), R.unc[k][:, idx], rtol=1e-14, atol=0)):
                     msg = 'get_sed(%s) errors do not match the stored uncertainties' % R.names[k]
                 elif sd.name != R.names[k]:
                     msg = 'get_sed name %s' % sd.name
